@@ -16,7 +16,7 @@ func defaultCfg(tier string) *RunCfg {
 	cfg := &RunCfg{BranchTimeoutMs: 10000, AssertTimeoutMs: 30000, MaxSteps: 20_000_000, MaxBackEdges: 5000, StopAtFirst: true, Known: map[string]bool{}, Tier: tier}
 	if tier == "thorough" {
 		cfg.BranchTimeoutMs, cfg.AssertTimeoutMs = 60000, 120000
-		cfg.Cross = []string{"cvc5", "z3-new:10"}
+		cfg.Cross = []string{"cvc5", "z3:10"}
 	}
 	if x := os.Getenv("GOITSYM_CROSS"); x != "" {
 		cfg.Cross = strings.Split(x, ",")
